@@ -383,7 +383,7 @@ func init() {
 	}})
 }
 
-var c14atoms = []string{"time >= '2000-01-01T00:00:00Z'", "time < now() - 1h", "host = 'a'", "a = 1 + 2", "v > 1.5", "host =~ /^(a|b)$/", "host =~ /^$/", "now() - 1h < time", "'2000-01-01T00:00:00Z' <= time"}
+var c14atoms = []string{"time >= '2000-01-01T00:00:00Z'", "time < now() - 1h", "host = 'a'", "a = 1 + 2", "v::field > 1.5", "host =~ /^(a|b)$/", "host =~ /^$/", "now() - 1h < time", "'2000-01-01T00:00:00Z' <= time"}
 
 func c14conditions() []string {
 	var out []string
@@ -467,7 +467,11 @@ func c14run(r *ev.Run) {
 	}
 	for _, t := range []string{
 		"SELECT percentile(value, 90 + 5) FROM m", "SELECT mean(v) FROM m GROUP BY time(5m, now())", "SELECT f(1 + 2, x) FROM m WHERE g(2 * 3) > 1",
-		"SELECT top(v, 1 + 1) FROM m GROUP BY time(1m + 1m)", "SELECT v FROM m WHERE time > now() - (1h + 30m)", "SELECT (1 + 2) * v, -(3 - 1) FROM m",
+		"SELECT top(v, 1 + 1) FROM m GROUP BY time(1m + 1m)",
+		// subqueries whose own clauses fold: a reduction of the outer statement must not re-point or edit them
+		"SELECT v FROM (SELECT v FROM m WHERE time > now() - 1h)", "SELECT v FROM (SELECT 1 + 1 AS v FROM m GROUP BY time(1m + 1m, now()))",
+		"SELECT v FROM (SELECT v FROM (SELECT percentile(v, 90 + 5) AS v FROM m WHERE a = 1 + 2)), m2 WHERE time > now() - (1h + 1m)",
+		"SELECT mean(v) INTO db.rp.t FROM (SELECT v FROM m WHERE time < now()) GROUP BY time(10m, now())", "SELECT v FROM m WHERE time > now() - (1h + 30m)", "SELECT (1 + 2) * v, -(3 - 1) FROM m",
 	} {
 		if _, err := influxql.ParseStatement(t); err == nil {
 			if _, ok := roots[t]; !ok {
